@@ -21,9 +21,14 @@ package matcher
 //@
 //@ # optFailed: did the sub-match of the last ?R fail (set right after that call, read by ?R's postcondition)
 //@ ghost optFailed bool
+//@ # chN, chOK, chIdx: count, success and index of the alternative a choice tried last (set right after that call,
+//@ # read by the choice's postconditions)
+//@ ghost chN int
+//@ ghost chOK bool
+//@ ghost chIdx int
 //@ interface Matcher.Match
 //@   requires ctx != nil && this != nil && wfM(this) && wfToks(src) && wfToks(ctx.toks)
-//@   assigns ctx.Left, ctx.LastErr, optFailed
+//@   assigns ctx.Left, ctx.LastErr, optFailed, chN, chOK, chIdx
 //@   ensures [count] 0 <= n && n <= len(src)
 //@   ensures [okerr] okErr(err)
 //@   ensures [progress] nonNull(this) && (err == nil || isDyn(err)) ==> n >= 1
@@ -69,7 +74,14 @@ package matcher
 //@   requires p != nil && len(p.stops) == len(p.options) && len(p.options) >= 1
 //@   requires forall i in 0..len(p.options) :: p.options[i] != nil && wfM(p.options[i]) && rank(p.options[i]) < rank(Matcher(p)) &&
 //@                                              (nonNull(Matcher(p)) ==> nonNull(p.options[i]))
+//@   at call Match#1 set chN = ret0
+//@   at call Match#1 set chOK = (ret2 == nil)
+//@   at call Match#1 set chIdx = i
+//@   ensures [c29.choice-success-is-the-alternative-just-tried] err == nil ==> chOK && n == chN && 0 <= chIdx && chIdx < len(p.options)
+//@   ensures [c29.choice-gives-up-early-only-after-progress] err != nil && chIdx != len(p.options) - 1 ==> chN > 0 && n == chN
+//@   ensures [c29.choice-gives-up-early-only-when-committed] err != nil && chIdx != len(p.options) - 1 ==> 0 <= chIdx && chIdx < len(p.stops) && p.stops[chIdx]
 //@ loop (*Choices).Match#1
+//@   invariant rangeindex >= 0 ==> chIdx == rangeindex
 //@   invariant nMax >= -1 && nMax <= len(src)
 //@   invariant nonNull(Matcher(p)) && errMax != nil && isDyn(errMax) ==> nMax >= 1
 //@   invariant nMax == -1 ==> errMax == nil
